@@ -22,7 +22,7 @@ from fsim.core import Result, fx, xf
 from fsim.worlds import ekf as ekfw
 
 TOL = 1e-9
-MAXDT_MENU = [0.1, 0.05, 0.25, 0.07, 1.0]
+MAXDT_MENU = [0.1, 0.05, 0.25, 0.07, 1.0, 1.0 / 60.0, 1.0 / 30.0, 0.123456789, 0.30000000000000004]  # incl. values with > 6 significant digits
 K_MENU = [None, 1.0, 5.0, 3.0]
 CPP_UNSAFE_MODELS = {"managed"}  # its symbol names collide with parameter names the generator emits ('state')
 
@@ -40,6 +40,14 @@ def generate(rng, prop, tier):
             break
     cfg = {"cse": rng.random() < 0.5, "innovation_filtering": rng.choice(K_MENU), "max_dt_sec": fx(rng.choice(MAXDT_MENU)),
            "config_as_dict": rng.random() < 0.4}
+    if prop in ("C06", "C07") and rng.random() < (0.2 if prop == "C06" else 0.06):
+        # exactly representable NIS tie (and +-1 ulp) on the selector model, through the GENERATED C++ filter
+        t = ekfw._gen_tie(rng, models.curated("direct2"), dict(cfg, mode="direct"))
+        t["config"] = dict(cfg, innovation_filtering=t["config"]["innovation_filtering"])
+        for op in t["ops"]:
+            if op["op"] == "predict":
+                op["control"] = {}
+        return {"config": t["config"], "model": t["model"], "decoys": [], "init": t["init"], "ops": t["ops"], "nis_ops": [], "faults": ["tie"]}
     # state carried across generations: other definitions generated in the same process before the one under test
     # (sharing sensor names with it), as a build script that emits several filters does
     decoys = []
@@ -88,8 +96,13 @@ def generate(rng, prop, tier):
                 # a tick through both runtimes (persistent managed filter on each side)
                 nr = rng.choice([0, 0, 1, 2, 3]) if sensors else 0
                 t_now = t_held + rng.uniform(0.2, 6) * max_dt
+                long_gap = rng.random() < 0.04
+                if long_gap:
+                    t_now = t_held + rng.uniform(1001, 1300) * max_dt  # more than 1000 steps in one propagation
                 readings, tf = [], []
-                probe_pair = sensors and rng.random() < 0.12
+                probe_pair = sensors and rng.random() < 0.12 and not long_gap
+                if long_gap:
+                    tf.append("long_gap")
                 if probe_pair:
                     # output-only tick to T, then a tick to the SAME T whose readings are all stamped at the held time
                     ops.append({"op": "tick", "t_out": fx(t_now), "control": ctl, "readings": [], "has_list": False, "faults": []})
@@ -691,6 +704,9 @@ def _check_steps(res, schedule, i, calls, extra, combo):
         rt_trace.check_group(tmp, "cpp", i, g, Fraction(a), Fraction(b), seg, max_dt, seen)
     for v in tmp.violations:
         res.add("C12", "tick_steps_" + v["clause"], f"C12:cpp:tick_steps:{v['clause']}:{combo}", i, v["expected"], v["observed"], "cpp")
+        if v["property"] == "C10":
+            # the configured maximum step reaches the C++ runtime through the generated Tag::max_dt_sec (cpp::Config)
+            res.add("C10", v["clause"], f"C10:cpp_generated:{v['clause']}", i, v["expected"] + f" (configured max_dt_sec={float(max_dt)!r}, generated filter under the C++ runtime)", v["observed"], "cpp")
 
 
 def _cmp_sv(res, prop, kind, i, out, xs, Ps, pmax=0.0, xmax=0.0, sens=(0.0, 0.0)):
